@@ -21,17 +21,31 @@ def lst2bas(ctx, text):
         f.write(text)
     argv = [p]
     other = None
+    other_ascii = False
     if h % 5 == 0:
         other = os.path.join(d, "second.lst")
         with open(other, "w", newline="") as f:
             f.write("10 REM SECOND\n")
-        argv = [p, other] if h % 2 else [other, p]
-    status, _ = run_cli(ListingToBasicCli().run, argv)
+        # the neighbour is converted to tokenized BASIC too, or (",a") to ASCII BASIC: its option must not leak to the other source
+        other_ascii = h % 3 == 0
+        argv = [p, other + (",a" if other_ascii else "")] if h % 2 else [other + (",A" if other_ascii else ""), p]
     bas = p[:-3] + "bas"
+    if h % 4 == 1:
+        # an older, longer result sits at the destination: it is replaced, not overwritten in place
+        with open(bas, "wb") as f:
+            f.write(b"\xff" + bytes(range(256)) * 40)
+    status, _ = run_cli(ListingToBasicCli().run, argv)
     if open(p, "rb").read() != text.encode("utf-8"):
         return "SourceOverwritten", None
-    if other is not None and status == "ok0" and not os.path.exists(other[:-3] + "bas"):
-        return "SecondListingNotConverted", None
+    if other is not None and status == "ok0":
+        ob = other[:-3] + "bas"
+        if not os.path.exists(ob):
+            return "SecondListingNotConverted", None
+        got = open(ob, "rb").read()
+        if other_ascii and got != b"\r10 REM SECOND\r":
+            return "SecondListingNotAsciiBasic", None
+        if not other_ascii and got[:1] != b"\xff":
+            return "SecondListingNotTokenized", None
     return status, (open(bas, "rb").read() if os.path.exists(bas) else None)
 
 
